@@ -25,7 +25,7 @@ def _mat(rng, tier, lo=1.5, hi=8.0, dispersive=False, magnetic=False):
     if magnetic:
         m["permeability"] = float(rng.uniform(1.2, 3.0))
     if dispersive:
-        m["dispersion"] = specgen.rand_dispersion(rng)
+        m["dispersion"] = specgen.rand_dispersion(rng, p_per_axis=0.0)  # per-axis poles count as anisotropic for plane sources (rejected at apply)
     return m
 
 
